@@ -342,6 +342,13 @@ func (p *Program) mwExpandFacts(fs []Fact) []Fact {
 			}
 			if _, isConst := constBool(e); !isConst {
 				vf := p.mkFact(e, f.Pol)
+				opp := "T:" + vf.key[2:]
+				if vf.Pol {
+					opp = "F:" + vf.key[2:]
+				}
+				if _, contradiction := es[opp]; contradiction {
+					continue // on this edge the value is known to be the opposite: the edge cannot have been taken
+				}
 				es[vf.key] = vf
 			}
 			cand = append(cand, es)
